@@ -67,6 +67,8 @@ class Frame:
         self.loop_stack: List[dict] = []
         self.parent_env = parent_env
         self.path_base = 0
+        self.nonlocals: set = set()
+        self.nl_exits: List[Tuple[List[Expr], Dict[str, Val]]] = []
 
 
 import os as _os
@@ -128,6 +130,124 @@ def _own_walk(node):
         if isinstance(n, (ast.FunctionDef, ast.AsyncFunctionDef, ast.ClassDef, ast.Lambda)):
             continue
         stack.extend(ast.iter_child_nodes(n))
+
+
+def _counter_loops(fnode):
+    """`i = lo` … `while i < hi: body; i += 1` is executed as `for i in range(lo, hi): body` (and `<=` as range(lo, hi + 1)):
+    the counting loop of index-style code.  Only when the body neither rebinds the counter elsewhere nor contains a `continue`
+    (which would skip the increment) nor a `break`, the bound is not rebound in the body, and the counter is not read after
+    the loop before it is bound again (after the while it equals hi, after the for it would be hi − 1)."""
+    if not isinstance(fnode, (ast.FunctionDef, ast.AsyncFunctionDef)):
+        return fnode
+    if not any(isinstance(n, ast.While) for n in _own_walk(fnode)):
+        return fnode
+    import copy as _copy
+    new = _copy.deepcopy(fnode)
+    changed = [False]
+
+    def names_stored(nodes):
+        out = set()
+        for st in nodes:
+            for x in ast.walk(st):
+                if isinstance(x, ast.Name) and isinstance(x.ctx, (ast.Store, ast.Del)):
+                    out.add(x.id)
+        return out
+
+    def _loads(node, name) -> bool:
+        return any(isinstance(x, ast.Name) and x.id == name and isinstance(x.ctx, ast.Load) for x in ast.walk(node))
+
+    def first_use(stmts, name) -> str:
+        """'read' if `name` may be read before it is bound again on some path through stmts, 'stored' if every path binds it
+        first, 'neither' if it is not touched"""
+        for st in stmts:
+            if isinstance(st, (ast.Assign, ast.AnnAssign, ast.AugAssign)):
+                val = st.value
+                if val is not None and _loads(val, name):
+                    return "read"
+                tg = st.targets if isinstance(st, ast.Assign) else [st.target]
+                if isinstance(st, ast.AugAssign) and isinstance(st.target, ast.Name) and st.target.id == name:
+                    return "read"
+                if any(_loads(t, name) for t in tg):
+                    return "read"
+                if any(isinstance(x, ast.Name) and x.id == name for t in tg for x in ast.walk(t)):
+                    return "stored"
+                continue
+            if isinstance(st, ast.If):
+                if _loads(st.test, name):
+                    return "read"
+                r1, r2 = first_use(st.body, name), first_use(st.orelse, name)
+                if "read" in (r1, r2):
+                    return "read"
+                if r1 == r2 == "stored":
+                    return "stored"
+                if "stored" in (r1, r2):
+                    return "read" if _loads(ast.Module(body=stmts[stmts.index(st) + 1:], type_ignores=[]), name) else "neither"
+                continue
+            if isinstance(st, (ast.While, ast.For)):
+                head = st.test if isinstance(st, ast.While) else st.iter
+                if _loads(head, name):
+                    return "read"
+                if isinstance(st, ast.For) and any(isinstance(x, ast.Name) and x.id == name for x in ast.walk(st.target)):
+                    continue   # bound by the loop when it runs; not bound when it does not: keep scanning
+                if first_use(st.body, name) == "read":
+                    return "read"
+                continue       # a loop may run zero times: what follows still matters
+            if isinstance(st, (ast.FunctionDef, ast.AsyncFunctionDef, ast.ClassDef)):
+                if _loads(st, name):
+                    return "read"
+                continue
+            if _loads(st, name):
+                return "read"
+            if any(isinstance(x, ast.Name) and x.id == name and isinstance(x.ctx, (ast.Store, ast.Del)) for x in ast.walk(st)):
+                return "read"      # bound inside some other compound statement: be careful
+        return "neither"
+
+    def read_before_store(stmts, name) -> bool:
+        return first_use(stmts, name) == "read"
+
+    def convert(body, after_outer):
+        """rewrite the while loops of one statement list in place; after_outer: statements that run after this list"""
+        k = 0
+        while k < len(body):
+            st = body[k]
+            rest = body[k + 1:] + after_outer
+            for fld in ("body", "orelse", "finalbody"):
+                sub = getattr(st, fld, None)
+                if isinstance(sub, list) and sub and not isinstance(st, (ast.FunctionDef, ast.AsyncFunctionDef, ast.ClassDef)):
+                    # statements after a loop body also include the loop itself (next trip)
+                    convert(sub, ([st] if isinstance(st, (ast.While, ast.For)) else []) + rest)
+            if isinstance(st, ast.Try):
+                for h in st.handlers:
+                    convert(h.body, rest)
+            if isinstance(st, ast.While) and not st.orelse and isinstance(st.test, ast.Compare) and len(st.test.ops) == 1 \
+                    and isinstance(st.test.ops[0], (ast.Lt, ast.LtE)) and isinstance(st.test.left, ast.Name) and st.body:
+                i = st.test.left.id
+                hi = st.test.comparators[0]
+                last = st.body[-1]
+                inc_ok = isinstance(last, ast.AugAssign) and isinstance(last.op, ast.Add) and isinstance(last.target, ast.Name) \
+                    and last.target.id == i and isinstance(last.value, ast.Constant) and last.value.value == 1
+                init = body[k - 1] if k > 0 else None
+                init_ok = isinstance(init, ast.Assign) and len(init.targets) == 1 and isinstance(init.targets[0], ast.Name) \
+                    and init.targets[0].id == i
+                inner = st.body[:-1]
+                hi_names = {x.id for x in ast.walk(hi) if isinstance(x, ast.Name)}
+                clean = inc_ok and init_ok and i not in names_stored(inner) and not (hi_names & names_stored(st.body)) \
+                    and i not in hi_names \
+                    and not any(isinstance(x, (ast.Continue, ast.Break)) for b_ in inner for x in ast.walk(b_)
+                                if not isinstance(b_, (ast.FunctionDef, ast.Lambda))) \
+                    and not any(isinstance(x, (ast.Return,)) for b_ in inner for x in ast.walk(b_)) \
+                    and not read_before_store(rest, i)
+                if clean:
+                    stop = hi if isinstance(st.test.ops[0], ast.Lt) else ast.BinOp(hi, ast.Add(), ast.Constant(1))
+                    call = ast.Call(ast.Name("range", ast.Load()), [init.value, stop], [])
+                    loop = ast.For(target=ast.Name(i, ast.Store()), iter=call, body=inner or [ast.Pass()], orelse=[])
+                    ast.copy_location(loop, st)
+                    ast.fix_missing_locations(loop)
+                    body[k] = loop
+                    changed[0] = True
+            k += 1
+    convert(new.body, [])
+    return new if changed[0] else fnode
 
 
 def _eager_generator(fnode):
@@ -461,6 +581,7 @@ class Interp:
             except Exception:
                 nd = fi.node
         nd = _eager_generator(nd)
+        nd = _counter_loops(nd)
         cache[key] = nd
         return nd
 
@@ -504,6 +625,16 @@ class Interp:
             env[a.vararg.arg] = Seq([], "tuple")
         fr = Frame(fi, env, depth, closure_env)
         fr.path_base = len(self.path)
+        if closure_env is not None and not isinstance(fnode, ast.Lambda):
+            # `nonlocal x`: x lives in the enclosing scope; it is followed in this frame (so that branches join as usual)
+            # and written back, per exit path, when the call ends
+            for st_ in fnode.body:
+                for x_ in ast.walk(st_):
+                    if isinstance(x_, ast.Nonlocal):
+                        fr.nonlocals |= {nm for nm in x_.names if nm in closure_env}
+            for nm in fr.nonlocals:
+                if nm not in env:
+                    env[nm] = closure_env[nm]
         self.frames.append(fr)
         survive: List[Expr] = []
         try:
@@ -524,6 +655,17 @@ class Interp:
                 exits = [c for c, _ in fr.returns]
                 if done is not None:
                     exits.append(list(self.path[fr.path_base:]))
+                    if fr.nonlocals:
+                        fr.nl_exits.append((list(self.path[fr.path_base:]), {nm: done[nm] for nm in fr.nonlocals if nm in done}))
+                if fr.nonlocals and closure_env is not None:
+                    for nm in fr.nonlocals:
+                        snaps = [(c_, d_[nm]) for c_, d_ in fr.nl_exits if nm in d_]
+                        if not snaps:
+                            continue
+                        out_ = snaps[-1][1]
+                        for c_, v_ in reversed(snaps[:-1]):
+                            out_ = self.join_cond(sym.And(*c_) if c_ else sym.TRUE, v_, out_)
+                        closure_env[nm] = out_
                 ret = self._join_returns(fr)
                 # facts that hold on every normal exit of the callee (typically: its guards did not raise) stay known
                 # to the caller
@@ -697,6 +839,8 @@ class Interp:
         if isinstance(st, ast.Return):
             v = self.eval(st.value, env) if st.value is not None else NoneV()
             fr.returns.append((list(self.path[fr.path_base:]), v))
+            if fr.nonlocals:
+                fr.nl_exits.append((list(self.path[fr.path_base:]), {nm: env[nm] for nm in fr.nonlocals if nm in env}))
             self.event("return", st, value=v)
             return None
         if isinstance(st, ast.Raise):
@@ -757,7 +901,13 @@ class Interp:
             fv_.default_vals = self._bind_defaults(st.args, env)
             env[st.name] = fv_
             return env
-        if isinstance(st, (ast.Pass, ast.Import, ast.ImportFrom, ast.Global, ast.Nonlocal)):
+        if isinstance(st, ast.Global):
+            self.lose("a `global` statement: assignments to module-level names are not followed across calls", st)
+            return env
+        if isinstance(st, ast.Nonlocal) and not (set(st.names) <= fr.nonlocals):
+            self.lose("a `nonlocal` name that is not bound in the enclosing scope the evaluator follows", st)
+            return env
+        if isinstance(st, (ast.Pass, ast.Import, ast.ImportFrom, ast.Nonlocal)):
             return env
         if isinstance(st, ast.Assert):
             return env
@@ -924,6 +1074,17 @@ class Interp:
             if lo.e[0] == "num" and float(lo.e[1]).is_integer():
                 return sp, iv, lambda: Sc(sym.IV(iv, int(lo.e[1])))
             return sp, iv, lambda: Sc(sym.add(sym.IV(iv), lo.e))
+        if isinstance(it, ObjV) and it.tag == "lazy-map":
+            from .prims import _realise_map
+            items = _realise_map(self, it, node)
+            if items is not None:
+                return None, None, items
+            if len(it.attrs["iterables"]) == 1 and not it.attrs["star"]:
+                # map(f, xs) over a sequence of symbolic length: f of the generic element
+                sp, iv, elem = self.iteration(it.attrs["iterables"][0], node)
+                if sp is not None:
+                    f_ = it.attrs["f"]
+                    return sp, iv, (lambda: self.apply(f_, [elem()], {}, node, {}))
         if isinstance(it, ObjV) and it.tag == "strided-range":
             lo, hi, st = it.attrs["lo"].e, it.attrs["hi"].e, it.attrs["step"].e
             if all(x[0] == "num" for x in (lo, hi, st)) and (hi[1] - lo[1]) / st[1] <= 24:
@@ -1497,6 +1658,11 @@ class Interp:
     def unpack(self, v: Val, n: int, node) -> List[Val]:
         if isinstance(v, Seq) and len(v.items) == n:
             return list(v.items)
+        if isinstance(v, ObjV) and v.tag == "lazy-map":
+            from .prims import _realise_map
+            items = _realise_map(self, v, node)
+            if items is not None and len(items) == n:
+                return items
         if isinstance(v, ObjV) and v.tag == "zip" and v.attrs["items"] and all(
                 isinstance(x, Seq) and len(x.items) >= n for x in v.attrs["items"]) \
                 and min(len(x.items) for x in v.attrs["items"]) == n:
@@ -1518,6 +1684,18 @@ class Interp:
         if isinstance(v, Sc) and v.e[0] in ("opq", "choice", "at"):
             return [Sc(sym.Opq("unmodelled:unpack", (v.e,), fresh("u"))) for _ in range(n)]
         return [self.unknown("unpack", node, (generic_elem(v),)) for _ in range(n)]
+
+    def _rebind(self, name: str, env: dict, st) -> dict:
+        """the scope in which `name` is bound for a store through it: the local scope, or — for a free variable of a nested
+        function (a closure writing into an array of its enclosing function) — the enclosing scope that holds it"""
+        if name in env:
+            return env
+        fr = self.frames[-1] if self.frames else None
+        ce = fr.parent_env if fr is not None else None
+        if ce is not None and name in ce:
+            return ce
+        self.lose(f"a store through `{name}`, which is bound in no scope the evaluator follows (a module-level object?)", st)
+        return env
 
     def store_subscript(self, target: ast.Subscript, base: Val, v: Val, env: dict, st):
         idx = self.index_items(target.slice, env)
@@ -1574,7 +1752,7 @@ class Interp:
                                  vshape=vshape))
             self.blocks[b.uid] = b
             if name:
-                env[name] = b
+                self._rebind(name, env, st).__setitem__(name, b)
             return
         # D[a + k, b + k] = vals[k] (two index arrays walking a diagonal together): a diagonal block
         if len(idx) == 2 and all(it[0] == "fancy" for it in idx) and isinstance(base, (Arr, Blocks)) \
@@ -1587,11 +1765,11 @@ class Interp:
                         and sym.equal(s0["r1"], b.shape[0]) and sym.equal(s0["c1"], b.shape[1]) and s0["val"].off == b.base:
                     # the walk covers the whole main diagonal of a square array that held one value everywhere: that is a
                     # diagonal matrix (np.full + fill_diagonal written with index arrays)
-                    env[name] = s0["val"]
+                    self._rebind(name, env, st).__setitem__(name, s0["val"])
                     return
                 self.blocks[b.uid] = b
                 if name:
-                    env[name] = b
+                    self._rebind(name, env, st).__setitem__(name, b)
                 return
         if isinstance(base, Blocks):
             base.opaque_stores = getattr(base, "opaque_stores", []) + [st]
@@ -1604,7 +1782,7 @@ class Interp:
                 return
         u = self.unknown("subscript-store", st, (generic_elem(base), generic_elem(v)))
         if name:
-            env[name] = u
+            self._rebind(name, env, st).__setitem__(name, u)
         elif isinstance(base, Arr):
             # a store through an attribute / element that is not modelled: the array object (and every alias) now holds
             # something unknown — never silently the old contents
@@ -2440,6 +2618,10 @@ class Interp:
                         cols = [Arr([va.axes[0]], sym.subst_ivar(va.elem, va.axes[1][1], j), "list").renamed() for j in range(k)]
                         self.event("zip-star", n, table=va)
                         return Seq(cols, "tuple")
+                    if isinstance(va, Arr) and va.axes[0][0].concrete is not None and va.axes[0][0].concrete <= 8:
+                        # f(*rows) of an array with a known number of rows
+                        pos.extend(arrays.index(va, [("int", k)]) for k in range(va.axes[0][0].concrete))
+                        continue
                     pos.append(self.unknown("star-arg", a))
             else:
                 pos.append(self.eval(a, env))
@@ -2470,7 +2652,14 @@ class Interp:
                 return self.join_cond(conds[0], outs[0], outs[1])
             self.lose("call of one of several callables chosen under an unknown condition", n)
             return Alt([self.apply(x, pos, kwargs, n, env) for x in fv.vals])
+        if isinstance(fv, ObjV) and fv.tag == "itemgetter" and len(pos) == 1 and fv.attrs.get("k") is not None:
+            return _unbox_str(self.subscript(pos[0], [("int", fv.attrs["k"])], n))
+        if isinstance(fv, ObjV) and fv.tag == "attrgetter" and len(pos) == 1 and fv.attrs.get("k"):
+            return self.attribute(pos[0], fv.attrs["k"], n, env)
         if isinstance(fv, FuncV):
+            if fv.kind == "partial":
+                inner, p_args, p_kw = fv.target
+                return self.apply(inner, list(p_args) + list(pos), dict(p_kw, **kwargs), n, env)
             if fv.kind == "repo":
                 fi = self.p.functions[fv.target]
                 args = ([fv.bound_self] if fv.bound_self is not None else []) + pos
